@@ -47,8 +47,11 @@ def pieces_matching(nodes, x, value, only=None):
     return out
 
 
-def make_calc_for(m, points, bc):
-    dm = m.DragModel(bc, [{"Mach": a, "CD": b} for a, b in points])
+def make_calc_for(m, points, bc, dims=False):
+    if dims:
+        dm = m.DragModel(bc, [{"Mach": a, "CD": b} for a, b in points], m.Unit.Grain(168), m.Unit.Inch(0.308), m.Unit.Inch(1.2))
+    else:
+        dm = m.DragModel(bc, [{"Mach": a, "CD": b} for a, b in points])
     shot = m.Shot(weapon=m.Weapon(), ammo=m.Ammo(dm, m.Unit.FPS(2500)))
     calc = m.Calculator()
     calc._calc._init_trajectory(shot)
@@ -122,9 +125,9 @@ def real_traces(chk, rng, n_custom):
             xs[0] = 0.0
         tabs.append((f"custom{j}", [(x, round(rng.uniform(0.1, 0.9), 4)) for x in xs], False))
     const = 0.076474 * math.pi / (8 * 144)        # standard air density x pi / (8 x 144)
-    for name, pts, shipped in tabs:
+    for ti, (name, pts, shipped) in enumerate(tabs):
         bc = rng.choice([0.2, 0.5, 1.0, 0.365])
-        tc = make_calc_for(m, pts, bc)
+        tc = make_calc_for(m, pts, bc, dims=bool(ti % 2))      # every other model carries weight / diameter / length
         fpts = [(Fraction(a), Fraction(b)) for a, b in pts]
         mach = [a for a, _ in pts]
         n = len(pts)
@@ -173,8 +176,43 @@ def real_traces(chk, rng, n_custom):
     return lines, raw
 
 
+def solver_uses_lookup(chk, rng):
+    """the retardation the solver loop applies in every iteration is density x air speed x drag_by_mach(AIR-relative Mach):
+    recorded through hook H1 on shots with strong head / tail / cross winds (air speed != ground speed)"""
+    from pbv import integ
+    m = impl.pb()
+    U = m.Unit
+    for wdir in (0.0, 180.0, 90.0):
+        core.reset_world()
+        p = shots.gen_shot(rng, winds=0, look=0.0)
+        p["mv_fps"] = rng.choice([900.0, 1500.0, 2900.0])
+        p["winds"] = [[rng.choice([60.0, 120.0]), wdir, 1e8]]
+        shot = shots.build_shot(p)
+        calc = shots.build_calc({"max_calc_step_size_feet": 3.0})
+        rec = integ.Recorder().install()
+        try:
+            calc.fire(shot, U.Foot(900), U.Foot(300))
+        except m.RangeError:
+            pass
+        finally:
+            rec.remove()
+        tc = calc._calc
+        bad = None
+        for it in rec.calls[-1]["iters"]:
+            w, v = it["wind"], it["pre_v"]
+            air = math.sqrt((v.x - w.x) ** 2 + (v.y - w.y) ** 2 + (v.z - w.z) ** 2)
+            want = it["density_factor"] * air * tc.drag_by_mach(air / it["mach"])
+            if abs(it["drag"] - want) > 1e-12 * abs(want):
+                bad = {"iteration": it["i"], "drag_used": it["drag"], "expected": want, "air_speed": air, "ground_speed": v.magnitude()}
+                break
+        chk.count(1, ("solver_lookup", wdir))
+        chk.stratum("solver_uses_lookup")
+        if bad:
+            chk.violation("C09.SolverDoesNotUseLookupAtAirMach", {"source": "hook", "wind_from_deg": wdir}, {"shot": p, **bad})
+
+
 def run(chk: core.Check, replay=None) -> None:
-    core.use_repo(hooks=False)
+    core.use_repo(hooks=True)
     core.reset_world()
     thorough = chk.tier == "thorough"
     maxn = 7 if thorough else 6
@@ -206,6 +244,7 @@ def run(chk: core.Check, replay=None) -> None:
     chk.traces += len(lines)
     for tid, clause in fails:
         chk.violation(clause, {"source": "real-table", "table": raw[tid]["table"] if raw[tid]["line"]["shipped"] else "custom"}, raw[tid])
+    solver_uses_lookup(chk, rng)
     # table identity again after the library has been used
     m = impl.pb()
     sh = shots.build_shot(shots.gen_shot(rng))
@@ -218,7 +257,7 @@ def run(chk: core.Check, replay=None) -> None:
     if bad:
         chk.violation("C09.ShippedTableChangedByLibraryCall", {"tables": bad}, {"tables": bad})
     chk.sample(next(iter(raw.values())))
-    chk.require_strata(["int_at_node", "int_beyond_table", "int_midpoint_or_half", "real_shipped", "real_custom", "real_at_node", "real_beyond"])
+    chk.require_strata(["int_at_node", "int_beyond_table", "int_midpoint_or_half", "real_shipped", "real_custom", "real_at_node", "real_beyond", "solver_uses_lookup"])
     chk.rule.append("every table shape (3..%d nodes, gaps 1..3) x every quarter-grid query (TLC Gen_DragLookup) through 2 entry "
                     "points; all 9 shipped tables and seeded custom tables queried at / +-1 ulp / +-1e-9 around every node and "
                     "midpoint and beyond the last entry; non-trivial = query within the table span" % (6 if thorough else 5))
